@@ -42,12 +42,13 @@ func c08ValidDest(code []byte, d *big.Int) bool {
 
 // memory-window operands: the window is either small (offset <= 3, size from a
 // list crossing the 32-byte word boundary) or absurdly large (refused).
-var c08Sizes = []int64{0, 1, 2, 31, 32, 33}
+// the suite parameter msizes takes the first msizes entries
+var c08Sizes = []int64{0, 1, 2, 33, 32, 31}
 
 func c08Window(args []*big.Int, offIdx, sizeIdx int) {
 	if vs.Choice("window", 2) == 0 {
 		vs.Assume(args[offIdx].Cmp(big.NewInt(3)) <= 0)
-		args[sizeIdx] = big.NewInt(c08Sizes[vs.Choice("size", len(c08Sizes))])
+		args[sizeIdx] = big.NewInt(c08Sizes[vs.Choice("size", vs.Param("msizes"))])
 	} else {
 		// at least one of offset / size is enormous
 		if vs.Choice("huge", 2) == 0 {
